@@ -119,6 +119,14 @@ def run_case(case, ctx):
     if not fit_intercept:
         ctx.cls("no-intercept")
     Xin = pandas.DataFrame(X, columns=["c%d" % i for i in range(p)]) if frame else X
+    yin, win = y, w
+    if frame and sub % 2:
+        # a frame, a target and weights that share a permuted index (rows of df.sample(frac=1))
+        ix = numpy.random.RandomState(sub % 997).permutation(len(X))
+        Xin.index = ix
+        yin = pandas.Series(y, index=ix)
+        win = None if w is None else pandas.Series(w, index=ix)
+        cfg["index"] = "permuted"
 
     def new():
         return QuantileLinearRegression(quantile=q, max_iter=300, positive=positive,
@@ -126,7 +134,7 @@ def run_case(case, ctx):
 
     numpy.random.seed(sub % (2 ** 31))
     m = new()
-    r = m.fit(Xin, y) if w is None else m.fit(Xin, y, sample_weight=w)
+    r = m.fit(Xin, yin) if w is None else m.fit(Xin, yin, sample_weight=win)
     ctx.check(r is m, "C05/fit/returns-not-self", "fit did not return the estimator", cfg=cfg)
     f = m.predict(X)
     lstar = lp_optimum(X, y, q, w, fit_intercept, positive)
